@@ -185,7 +185,7 @@ CHECKS["C09"] = dict(
     "over generated layouts, histories of up to 3 insertions, then every removal; oracle: independent projections over lxml. "
     "Moving the end tag of a range (set_reference_mark_end / insert_annotation_end, model Markup.moveEnd: the new tag is inserted first, then the former one is "
     "deleted): an address that matches nothing fails without modification (move_end_raises_without_modification, the order fix C09-F6 established), and every "
-    "character is kept for every insertion that keeps every character (move_end_keeps_every_character, insert_by_position_keeps_every_character); ~450 such moves "
+    "character is kept for every insertion that keeps every character (move_end_keeps_every_character, insert_by_position_keeps_every_character, insert_by_regex_keeps_every_character for every matcher); ~450 such moves "
     "per quick run are sent to the model.",
     note="The regular expression engine (`re`) is a parameter of the model, instantiated by the harness. strip_tags re-appends text through _add_text which "
     "collapses runs of blanks: the model keeps the characters and the correspondence for the strip operations compares modulo runs of blanks (the oracle "
